@@ -34,11 +34,23 @@ case "$cmd" in
         prop="${2:?property}"
         tier="${3:-${VERIF_TIER:-quick}}"
         "$BIN" check "$prop" "$tier"
-        exit $?
+        code=$?
+        # E4: C09's thorough tier also runs shared tapes under Miri
+        if [ "$code" -eq 0 ] && [ "$prop" = "C09" ] && [ "$tier" = "thorough" ]; then
+            "$ROOT/tools/miri_stage.sh" run
+            code=$?
+        fi
+        exit $code
         ;;
     replay)
+        f="${2:?file}"
+        if grep -q '"mode":"miri"' "$f" 2>/dev/null; then
+            seed=$(grep -o '"miri_seed":[0-9]*' "$f" | grep -o '[0-9]*$')
+            "$ROOT/tools/miri_stage.sh" replay "$seed"
+            exit $?
+        fi
         build
-        "$BIN" replay "${2:?file}"
+        "$BIN" replay "$f"
         exit $?
         ;;
     selftest)
